@@ -73,6 +73,19 @@ CHECKS["C19"] = {
     "parts": [A("vtx", "./checks/c19", "TestC19", budget={"quick": 90, "thorough": 1500})],
 }
 
+CHECKS["C18"] = {
+    "level": "model_checking",
+    "engine": "sched",
+    "technique": "stateless model checking of the implementation: preemption-bounded exhaustive schedule enumeration (iterative context bounding) under a controlled scheduler, plus exhaustive control-flow path enumeration for lock balance",
+    "rule": "Engine B: the repository sources are rewritten at check time (go build -overlay) so that every mutex, atomic, channel, timer, socket and goroutine-spawn "
+            "operation is a scheduling point; for each closed scenario (S1 CreatePermission vs lifetime timer, S2 ChannelBind vs lifetime timer, S3 Refresh vs lifetime timer + re-Allocate, "
+            "S4 peer datagram vs Refresh0, S5 permission refresh vs permission timer, S6 channel refresh vs channel timer, S7 Connect/duplicate Connect/Refresh on a TCP allocation, "
+            "S8 Server.Close vs request vs peer datagram, S10 two stream clients on one manager; lifecycle callbacks yield) ALL schedules with at most 2 (thorough 3) preemptions are executed "
+            "on the real code by prefix replay; timers whose deadline is within 1ms may fire at any point. Verdicts: panic in any thread, deadlock, lock held when its holder exits, "
+            "unlock of unlocked mutex, harness thread that must complete but never does. A class is (scenario => sorted verdict set).",
+    "parts": [A("sched", "./checks/c18", "TestC18Sched", overlay=True, gomaxprocs=1, budget={"quick": 120, "thorough": 2400})],
+}
+
 ENGINES = [
     {"name": "vtx", "path": "/verif/vtx", "serves_properties": ["C01", "C02", "C04", "C06", "C07", "C08", "C19"],
      "kind_free_text": "Engine A: explicit-state search over event histories of the real turn.Server/turn.Client in virtual time (testing/synctest) over an in-memory network, reference model + probe sweep after every event"},
